@@ -130,6 +130,29 @@ def main():
                                  "MutableRef.__iadd__")
                 except Exception as ex:      # noqa
                     rac.fail(key, f"C01 {' ; '.join(src[3:])}: raised {type(ex).__name__}: {ex}", scr, "MutableRef.__iadd__")
+    rac.section("inplace-shared-values", "an in-place operator through a reference on a location whose value (an array, a list) is ALSO held by a second "
+                "location that has a dependant: the second location was not assigned, so it keeps its value and its dependant stays consistent with it; "
+                "the assigned location holds old value OP operand", "5 operators x 2 kinds of value")
+    import numpy as _np
+    for sym, fn in [("+=", _op.add), ("-=", _op.sub), ("*=", _op.mul), ("/=", _op.truediv), ("**=", _op.pow)]:
+        for kind, mk in (("array", "np.array([1.0, 2.0, 3.0])"), ("int-array", "np.array([1, 2, 3])")):
+            src = ["import xdeps, numpy as np", f"v = {mk}", "d = {'p': v, 'q': v, 's': 0.0}", "m = xdeps.Manager(); r = m.ref(d, 'd')",
+                   "r['s'] = r['q'] * 2", f"r['p'] {sym} 2"]
+            key = f"inplace-shared {sym} {kind}"
+            scr = PRELUDE + "\n".join(src) + f"\norig = {mk}\nassert np.array_equal(d['q'], orig), ('q was not assigned', d['q'])\n" \
+                "assert np.array_equal(d['s'], d['q'] * 2), ('dependant of q', d['s'], d['q'])\n"
+            rac.case(key, sample=dict(op=sym, value=kind))
+            env = {}
+            try:
+                exec("\n".join(src), env)
+                d_ = env["d"]
+                orig = eval(mk, {"np": _np})
+                want_p = fn(orig, 2)
+                if not _np.array_equal(d_["q"], orig) or not _np.array_equal(d_["s"], d_["q"] * 2) or not _np.array_equal(d_["p"], want_p):
+                    rac.fail(key, f"C01 p and q hold the same {kind}; s = q * 2; p {sym} 2: p = {d_['p']!r}, q = {d_['q']!r}, s = {d_['s']!r}; "
+                             f"q was not assigned (was {orig!r}) and s must equal q * 2", scr, "MutableRef.__iadd__")
+            except Exception as ex:      # noqa
+                rac.fail(key, f"C01 {key}: raised {type(ex).__name__}: {ex}", scr, "MutableRef.__iadd__")
     rac.section("redefinition-same-text", "a location re-defined by a DIFFERENT expression that prints like the old one (a revised function "
                 "of the same name, two lambdas, a bound method of another object, keyword spelled differently), with a dependant, "
                 "followed by a change of an upstream input: every location follows the NEW definition",
